@@ -10,6 +10,8 @@ ORACLE NumPy evaluates the view program; expected buffer = closed form "cell i h
 No device exists here: the launch itself (driver API, memory copies, real thread scheduling) is NOT covered.
 """
 import itertools
+import os
+import shutil
 import numpy as np
 from runner import Case
 from shapes import prod, fmt, fmt_lists
@@ -278,8 +280,28 @@ PROGS = _progs()
 GROUPS = [1, 2, 3, 4, 5, 6, 7, 8, 9]
 
 
+# programs also run END TO END through the real SYCL evaluator (eval/sycl/evaluator.hpp + context.hpp) over the sequential
+# stand-in for the SYCL runtime harness/c13_sycl_mock.hpp: name -> harness TU group (h_c13_sycl.cpp)
+SYCL_PROGS = {'transpose': 1, 'add': 1, 'reduce_add': 1, 'accumulate_add': 1, 'neg_add': 1, 'add_tr': 1,
+              'sum_mul': 2, 'neg_add_mul': 2, 'tr_neg_add': 2, 'add_mul2': 2,
+              'transpose_col': 3, 'add_col': 3}
+SYCL_GROUPS = [1, 2, 3]
+SYCL_LOCAL = 32          # work-group size chosen by sycl::context_t::run_
+_SYCL_INC = os.path.join(os.path.dirname(os.path.dirname(os.path.dirname(os.path.abspath(__file__)))), 'harness', 'c13_sycl')
+
+
+_HIP_INC = os.path.join(os.path.dirname(_SYCL_INC), 'c13_hip')
+# the host side of the CUDA / HIP contexts (context_t::create_array) over stand-ins for the runtime API: the contexts use the
+# launch syntax <<<...>>>, so these two TUs are compiled by clang++ in CUDA / HIP host-only mode (skipped when there is no clang++)
+HAVE_CLANG = shutil.which('clang++') is not None
+DEV_BACKENDS = {'cuda': ['-x', 'cuda', '--cuda-host-only', '-nocudainc', '-nocudalib', '-DC13_BACKEND_CUDA'],
+                'hip': ['-x', 'hip', '--cuda-host-only', '-nogpuinc', '-nogpulib', '-I' + _HIP_INC, '-DC13_BACKEND_HIP']} if HAVE_CLANG else {}
+
+
 def harness_specs(tier):
     sp = [dict(name='h_c13_g%d' % g, src='h_c13.cpp', flavour='fast', extra=['-DC13_GROUP=%d' % g]) for g in GROUPS]
+    sp += [dict(name='h_c13_sycl%d' % g, src='h_c13_sycl.cpp', flavour='fast', extra=['-DC13_SYCL_GROUP=%d' % g, '-I' + _SYCL_INC]) for g in SYCL_GROUPS]
+    sp += [dict(name='h_c13_%s' % b, src='h_c13_dev.cpp', flavour='fast', compiler='clang++', extra=fl) for b, fl in DEV_BACKENDS.items()]
     if tier == 'thorough':
         # the same TUs under ASan + UBSan (NDEBUG as the baseline): out-of-bounds / lifetime errors of the kernel body are results
         sp += [dict(name='h_c13_g%d_san' % g, src='h_c13.cpp', flavour='san', extra=['-DC13_GROUP=%d' % g]) for g in GROUPS]
@@ -397,9 +419,87 @@ def sched_picker(rng, ctr, count, full_cross=False):
     return scheds
 
 
+def sycl_cases(tier, rng):
+    """the real SYCL evaluator over the mock runtime: the launch is the context's own (work-group 32, global size = output size
+    rounded up to a multiple of 32); the harness chooses which work items of it run, in which order and how often"""
+    ncase = 3 if tier == 'quick' else 20
+    k = 0
+    for name, grp in SYCL_PROGS.items():
+        pg = PROGS[name]
+        made = tries = 0
+        while made < ncase and tries < 10 * ncase:
+            tries += 1
+            shapes, params = pg['gen'](rng)
+            A = [leaf(sh, j, pg['data']) for j, sh in enumerate(shapes)]
+            try:
+                res = np.asarray(pg['ref'](A, params))
+            except ValueError:
+                continue
+            if res.size == 0 or res.size > MAXOUT or np.abs(res).max() >= 2 ** 31:
+                continue
+            made += 1
+            oshape = list(res.shape); rf = [int(x) for x in res.reshape(-1)]; n = len(rf)
+            G = -(-n // SYCL_LOCAL) * SYCL_LOCAL
+            base = ' '.join(('prog=%s shapes=%s %s data=%s init=%d' % (pg['hprog'], fmt_lists(shapes), fmt_params(params), pg['data'], SENTINEL)).split())
+            off = pg['layout'] == 'col' or pg['nonfirst']        # known-defect regions: the oracle is the judge
+            h = 'h_c13_sycl%d' % grp
+            tags0 = ['sycl', 'prog=' + name, 'depth=%d' % pg['depth'], 'mode=sycl', 'outdim=%d' % len(oshape), 'bsz=%d' % SYCL_LOCAL]
+            yield Case('c13_sycl_launch %s sched=all' % base, h, dom=False, oracle='ok launches=1 global=%d local=%d' % (G, SYCL_LOCAL),
+                       model=False, nontrivial=False, tags=tags0 + ['launch'])
+            for _ in range(3 if tier == 'quick' else 6):
+                k += 1
+                ids = list(range(G))
+                order = ORDERS[k % len(ORDERS)]
+                stags = [order, 'exact' if G == n else 'over']
+                if order == 'desc':
+                    ids.reverse()
+                elif order == 'interleave':
+                    ids = ids[0::2] + ids[1::2]
+                elif order == 'evenodd':
+                    ids = [g for g in ids if g % 2 == 0] + [g for g in reversed(ids) if g % 2 == 1]
+                elif order == 'random':
+                    rng.shuffle(ids)
+                kind = k % 7
+                if kind == 2:
+                    for _ in range(rng.randint(1, 4)):
+                        ids.insert(rng.randrange(len(ids) + 1), rng.choice(ids))
+                    stags.append('dup')
+                elif kind == 4:          # work items beyond the launch: the guard of assign_result
+                    ids.insert(rng.randrange(len(ids) + 1), G + rng.randrange(1000)); ids.insert(rng.randrange(len(ids) + 1), 2 ** 33 + rng.randrange(7))
+                    stags.append('far')
+                elif kind == 6:
+                    drop = set(rng.sample(range(len(ids)), max(1, len(ids) // 4)))
+                    ids = [g for i, g in enumerate(ids) if i not in drop]
+                    stags.append('partial')
+                plain = (order == 'asc' and kind not in (2, 4, 6))
+                sched = [(g, 0) for g in ids]
+                out, eq = expected(rf, n, 1, sched)
+                req = 'c13_sycl %s sched=%s' % (base, 'all' if plain else fmt_sched(sched))
+                mreq = 'c13_kern shape=%s res=%s init=%d bsz=1 sched=%s' % (fmt(oshape), fmt(rf), SENTINEL, fmt_sched(sched))
+                yield Case(req, h, dom=not off, oracle='ok shape=%s out=%s hosteq=%d' % (fmt(oshape), fmt(out), eq), model=not off, mreq=mreq,
+                           nontrivial=(n >= 2 and not plain), tags=tags0 + stags)
+
+
+def upload_cases(tier, rng):
+    """context_t::create_array of the CUDA / HIP contexts (real host code over the runtime stand-ins): the uploaded operand,
+    rebuilt as the kernels do, must be the host array — element k (row-major numbering) at row-major position k"""
+    shapes = [[n] for n in (1, 2, 5)] + [[a, b] for a in (1, 2, 3) for b in (1, 2, 4)] + [[2, 3, 2], [1, 3, 1], [2, 1, 2, 3], [1, 1, 1, 1, 1, 1, 1, 2], [2, 1, 2, 1, 2, 1, 2, 1]]
+    for _ in range(10 if tier == 'quick' else 100):
+        shapes.append(rshape(rng, max_rank=(4 if rng.random() < 0.8 else 8), max_extent=(4 if rng.random() < 0.8 else 2), cap=64))
+    for b in DEV_BACKENDS:
+        for s in shapes:
+            n = prod(s)
+            for layout in ['row', 'col']:
+                visible = layout == 'col' and len([e for e in s if e > 1]) >= 2
+                yield Case('c13_upload layout=%s shape=%s' % (layout, fmt(s)), 'h_c13_%s' % b, dom=(layout == 'row'),
+                           oracle='ok shape=%s data=%s buffer=%s' % (fmt(s), fmt(list(range(n))), fmt(list(range(n)))),
+                           nontrivial=len([e for e in s if e > 1]) >= 2,
+                           tags=['upload', 'backend=' + b, 'layout=' + layout, 'dim=%d' % len(s)] + (['layout-visible'] if visible else []))
+
+
 def gen(tier, rng):
     k = 0
-    for c in gen_(tier, rng):
+    for c in itertools.chain(gen_(tier, rng), sycl_cases(tier, rng), upload_cases(tier, rng)):
         yield c
         # thorough: every 4th in-domain request (every 16th of the known-defect regions) also goes to the sanitizer build
         k += 1
@@ -462,7 +562,10 @@ def _req_args(c):
 
 def colmajor_operand(c):
     """a program over column-major host arrays where some operand has >= 2 axes of extent > 1 (layout visible in the buffer)"""
-    if not c.req.startswith('c13_kern '):
+    if c.req.startswith('c13_upload '):
+        a = _req_args(c)
+        return a.get('layout') == 'col' and len([e for e in a.get('shape', '').split(',') if e and int(e) > 1]) >= 2
+    if not (c.req.startswith('c13_kern ') or c.req.startswith('c13_sycl ')):
         return False
     a = _req_args(c)
     if not a.get('prog', '').endswith('_col'):
@@ -473,6 +576,8 @@ def colmajor_operand(c):
 
 def nonfirst_view_operand(c):
     """extraction path (mode=dev) of a view tree in which some node has a view operand that is not its first operand"""
+    if c.req.startswith('c13_sycl '):
+        return _req_args(c).get('prog', '') in NONFIRST
     if not c.req.startswith('c13_kern '):
         return False
     a = _req_args(c)
